@@ -319,6 +319,9 @@ def partners(v):
 
 
 def replay(w):
+    if 'dispatch' in w:
+        from checks import c11_ignore
+        return c11_ignore.replay(w)
     try:
         if w['unit'] == 'default':
             defaultkey_c(w['which'], w['tol'], w['deep'], w['dflt'])
@@ -346,3 +349,9 @@ def level_a(tier):
     return {'obligations': a['obligations'] + b['obligations'], 'discharged': a['discharged'] + b['discharged'],
             'failed': a['failed'] + b['failed'], 'functions': a['functions'] + b['functions'], 'ms': a['ms'] + b['ms'],
             'unsupported': a['unsupported'] + b['unsupported']}
+
+
+def level_a_search(name):
+    """a failed __new__ dispatch obligation: find the spelling of maxsize for which the configuration is not handed on"""
+    from checks import c11_ignore
+    return c11_ignore.level_a_search(name)
